@@ -406,7 +406,7 @@ def s_pressure(draw):
         nobj += 1
     start = draw(st.integers(-700, 0))
     for _ in range(draw(st.integers(1, 3))):
-        ops.append(["fill", start, draw(st.sampled_from([40, 150, 300, 520]))])
+        ops.append(["fill", start, draw(st.sampled_from([40, 150, 300, 520])), draw(st.sampled_from(["str", "dict", "json", "mixed", "mixed"]))])
         start += 600
         ops.append(["gc"])
         for _ in range(draw(st.integers(2, 5))):
@@ -463,7 +463,24 @@ def o_history(case, T):
         elif op[0] == "fill":
             # many distinct short-lived CRSs (cache pressure): a bounded construction cache would evict and free
             # pyproj objects whose ids the transformer cache still uses as keys
-            tmp = [CRS(_TMERC % ((op[1] + i) * 0.25)) for i in range(op[2])]
+            route = op[3] if len(op) > 3 else "str"
+
+            def _short_lived(i):
+                lon0 = (op[1] + i) * 0.25
+                r = route if route != "mixed" else ("str", "dict", "json", "pyproj")[i % 4]
+                if r == "dict":  # PROJ parameter dict
+                    return CRS({"proj": "tmerc", "lat_0": 0, "lon_0": lon0, "k": 1, "x_0": 0, "y_0": 0, "ellps": "WGS84", "units": "m", "no_defs": True, "type": "crs"})
+                if r == "json":  # PROJJSON dict
+                    from pyproj import CRS as P
+
+                    return CRS(P.from_user_input(_TMERC % lon0).to_json_dict())
+                if r == "pyproj":
+                    from pyproj import CRS as P
+
+                    return CRS(P.from_user_input(_TMERC % lon0))
+                return CRS(_TMERC % lon0)
+
+            tmp = [_short_lived(i) for i in range(op[2])]
             live = [o for o in objs if o[2] is not None]
             if live:
                 # leave transformer-cache entries behind that are keyed by the ids of these short-lived objects
